@@ -5,7 +5,7 @@ import os
 from .model import AnalysisError
 from .report import VERIF
 from .callgraph import closure
-from .rules import r1_resolve, r2_none, r3_ctor, r9_purity, r4_predicates, r5_arghandler, r6_dispatch, r7_binary, r8_accessors, r_list, r10_args, r11_symbolic, r16_tables, r15_closed, r14_interp, r18_shared, r19_angles, r20_shapes, r21_explog
+from .rules import r1_resolve, r2_none, r3_ctor, r9_purity, r4_predicates, r5_arghandler, r6_dispatch, r7_binary, r8_accessors, r_list, r10_args, r11_symbolic, r16_tables, r15_closed, r14_interp, r18_shared, r19_angles, r20_shapes, r21_explog, r22_dualquat, r23_lines
 
 _anch = None
 
@@ -508,6 +508,7 @@ def c03(run):
     r21_explog.check_log_general(run)
     r21_explog.check_twist_pairs(run)
     r21_explog.check_ginv(run)
+    r21_explog.check_exp_dependence(run)
     r16_tables.check_trlog_dependence(run)
     r16_tables.tables_frames(run)
     r20_shapes.check_shapes(run, run.prog.analysed_functions())
@@ -600,14 +601,18 @@ def c06(run):
     r16_tables.tables_c06(run)
     r16_tables.check_expr_fn(run, 'base/quaternions:qvmul', 'qvmul sandwich', 'qqmul(P0, qqmul(pure(P1), conj(P0)))[1:4]',
                              alts=('qqmul(qqmul(P0, pure(P1)), conj(P0))[1:4]',))
+    r16_tables._dualquat(run)
+    r22_dualquat.check_point_route(run)
     _scope_rules(run, 'C06')
     run.floor('R16', 18)
     run.explanation = ('Points, routing part only: in SMPose.__mul__ the operands are never rebound to a transformed value; the point is '
                        'normalised by getvector; SE(n) routes are h2e(A @ e2h(v)) and SO(n) routes A @ v under the matching isSE/isSO '
                        'guards, for single and multi-valued poses and for N-column arrays (column i with pose i); non-conforming '
                        'arrays raise; homtrans/h2e/e2h have the lift / project forms; the unit-quaternion routes go through '
-                       'qvmul = q (0,v) conj(q) and the unit-dual-quaternion route is the sandwich with Pure(v). Numerical equality of '
-                       'the routes (in particular of the dual-quaternion route) is not decided.')
+                       'qvmul = q (0,v) conj(q); the unit-dual-quaternion route, composed in the quaternion algebra over the atoms r, r~, t, p '
+                       '(q = r + eps t r / 2, product rule and conjugate read from the code), has the dual part r p r~ + t (R22); in every '
+                       'matrix product the pose is the left factor; the classes involved carry no hidden state. Numerical equality of '
+                       'the routes is not decided.')
     run.trust(*STATIC_TRUST)
 
 
@@ -714,6 +719,9 @@ def c18(run):
 def c19(run):
     r16_tables.tables_c19(run)
     r16_tables.check_column_branch_agreement(run, 'geom3d:Plucker.contains', 'x')
+    r23_lines.check_intersect_plane(run)
+    r23_lines.check_closest(run)
+    r23_lines.check_distance(run)
     r10_args.check_recursion_options(run, [f for f in run.prog.analysed_functions() if f.module.short == 'geom3d'])
     _scope_rules(run, 'C19')
     run.floor('R16', 20)
